@@ -392,8 +392,10 @@ def check_C04(ctx):
 
 
 def check_C06(ctx):
-    facts, rep, rows, broken = codec_common(ctx, {"stream"}, 300, 3000)
-    ctx.assumptions += CODEC_ASSUME + ["fragmentation is applied on the implementation (every two-way split, one-byte, random chunks, data with EOF, empty reads, 16-byte bufio; buffered and unbuffered top level) and compared with the in-memory result, which is compared with the model"]
+    facts, rep, rows, broken = codec_common(ctx, {"stream", "cstream", "cdec"}, 300, 3000)
+    ctx.assumptions += CODEC_ASSUME + ["fragmentation: theorem C06_chunking covers every script of read sizes on the reader-object model (Readers.v), which is tied to the real bufio / LimitReader / ReadFull / CopyN by running both on the same scripts (groups cstream, cdec); in addition every two-way split, one-byte, random chunks, data with EOF, empty reads and a 16-byte bufio are applied on the implementation and compared with the in-memory result"]
+    scripted_rows(ctx, rows, {"cstream", "cdec"}, "successive Decode calls on one Decoder over a scripted transport differ from the reader-object model (which by theorem C06_chunking returns the messages one by one, then io.EOF, and from an io.ByteScanner consumes exactly each message)")
+    rows = [r for r in rows if r[0].split(":")[-1] not in ("cdec", "cstream")]
     bad = 0
     for g, cmd, impl, model in rows:
         if impl != model:
@@ -442,9 +444,43 @@ def check_C05(ctx):
     return ctx.finish()
 
 
+def project_scripted(cmd, model):
+    """model line of a cdec/cstream case: '<result> | left=a buffered=b alloc=c' -> what the implementation can show:
+    the result, and for an io.ByteScanner source (mode 0) the bytes left in it"""
+    parts = model.split(" | ")
+    if not parts[-1].startswith("left="):
+        return model
+    mode = cmd.split(" ")[2] if len(cmd.split(" ")) > 2 else "1"
+    res = " | ".join(parts[:-1])
+    if mode == "0":
+        return res + " | " + parts[-1].split(" ")[0]
+    return res
+
+
+def scripted_rows(ctx, rows, groups, what):
+    """compare the implementation on a scripted transport with the extracted reader-object decoder (Readers.v)"""
+    bad = n = 0
+    for g, cmd, impl, model in rows:
+        if g.split(":")[-1] not in groups:
+            continue
+        n += 1
+        if first_word(model) == "fuel" or " | fuel" in model:
+            ctx.violation("model-fuel", {"what": "the reader-object model ran out of fuel or its bufio gave up (contradicts C03_io_error_safe / the script generator's < 50 empty reads)", "case": short(cmd, 3000)}, found_input=False)
+            continue
+        if impl != project_scripted(cmd, model):
+            bad += 1
+            if bad <= 4:
+                ctx.violation("delivery", {"what": what, "case (cdec <type> <mode 0=ByteScanner 1=NewDecoder's bufio n=bufio of size n> <read sizes> <last data with error> <terminal error> <bytes>)": short(cmd, 4000),
+                                           "implementation": short(impl, 1500), "model": short(project_scripted(cmd, model), 1500)})
+    ctx.cov["scripted_transport_cases"] = n
+    return n
+
+
 def check_C03(ctx):
-    facts, rep, rows, broken = codec_common(ctx, {"dec-valid", "dec-mut", "dec-random", "dec-trunc", "dec-noncanon", "stream"}, 300, 5000)
-    ctx.assumptions += CODEC_ASSUME + ["delivery independence is checked on the implementation (five deliveries of the same bytes, I/O error injection); the model reads from a flat byte list"]
+    facts, rep, rows, broken = codec_common(ctx, {"dec-valid", "dec-mut", "dec-random", "dec-trunc", "dec-noncanon", "stream", "cdec", "cstream"}, 300, 5000)
+    ctx.assumptions += CODEC_ASSUME + ["delivery: Readers.v models bufio.Reader (Read, ReadByte/fill, deferred error, large-read bypass), io.LimitedReader, io.ReadFull, io.CopyN into bytes.Buffer / Discard over a scripted transport; theorem C03_delivery_independent covers every script; the models are tied to the real objects by driving both with the same scripts (groups cdec, cstream); additionally five fixed deliveries of every mutated input are compared on the implementation alone"]
+    scripted_rows(ctx, rows, {"cdec", "cstream"}, "Decode on a scripted transport (read sizes, empty reads, data delivered with the terminal error, I/O error) differs from the reader-object model, which by theorem C03_delivery_independent equals decoding the bytes in memory")
+    rows = [r for r in rows if r[0].split(":")[-1] not in ("cdec", "cstream")]
     bad = 0
     for g, cmd, impl, model in rows:
         w = first_word(impl)
